@@ -19,7 +19,7 @@ TECHNIQUE = ('bounded exhaustive enumeration of log passes (channel codes x dime
              'calls on the same real LogicalIndex; every populated array compared bit for bit with the content model')
 RULE = ('part V: every channel configuration (index code x second channel code x dimensions, 1-3 channels) x n in {1,3} x 4 '
         'selections x every channel subset; part S: 3 configurations x n in 1..5 x every Slice(start,stop,step) with start,stop '
-        'in {None,-n..n+1}, step in {None,1..n} selecting >= 1 frame and every Sample(k) x 4 channel sets; part I: two frame '
+        'in {None,-n..n+1}, step in {None,1..n,-1..-n} selecting >= 1 frame and every Sample(k) x 4 channel sets; part I: two frame '
         'types with every interleaving of <= 6 IFLRs, an empty IFLR at every position, both layouts; part H: BFS over populate '
         'histories (2 frame arrays x 6 selections x 4 channel sets), state = per channel (array length, masked?) + file cursor. '
         'non-trivial = a selection other than None/all channels or more than one frame type; outcome = hash of populated arrays')
@@ -312,7 +312,7 @@ def configs_V():
 def all_selections(n, maxn):
     yield None
     rng = [None] + list(range(-n, n + 2))
-    for a, b, s in itertools.product(rng, rng, [None] + list(range(1, n + 1))):
+    for a, b, s in itertools.product(rng, rng, [None] + list(range(1, n + 1)) + list(range(-1, -n - 1, -1))):
         if list(range(n))[slice(a, b, s)]:
             yield ['slice', a, b, s]
     for k in range(1, n + 2):
